@@ -89,6 +89,11 @@ def structures(tier, seed):
     pairs = [(("center", "left"), ("center", "right")), (("center", "right"), ("left", "center")), (("outer", "center"), ("center", "outer")),
              (("center", "inner"), ("center", "left")), (("left", "center"), ("outer", "center")), (("center", "outer"), ("center", "inner"))]
     out.append({"part": "native-lazy", "sid": "native-lazy[bounded]"})
+    # the same labelling clauses when the operation is weighted by a metric (the product with the metric and the quotient by it go
+    # through xarray arithmetic, which names its result only when both operands have the same name)
+    for op in ("diff", "interp", "min", "max", "cumsum"):
+        for mw in (["X"], ["X", "Y"]):
+            out.append({"part": "metric-weighted", "op": op, "mw": mw, "sid": f"metric-weighted;{op};{'+'.join(mw)}"})
     for op in ("cumsum", "diff", "interp"):
         for (sx, sy) in (pairs if (tier == "thorough" or op == "cumsum") else pairs[:2]):
             for order in (("X", "Y"), ("Y", "X")):
@@ -142,6 +147,95 @@ def run_native_lazy(s):
             "counts": {"bounded_standin_evaluations": ncmp}}
 
 
+MW_REG = {"X": ["dx_c", "dx_l"], "Y": ["dy_c", "dy_l"], "XY": ["a_cc", "a_lc"]}
+
+
+def mw_call(g, op, c, mw):
+    kw = dict(to="left", metric_weighted=tuple(mw))
+    if op == "cumsum":
+        kw.update(boundary="fill", fill_value=0.0)
+    else:
+        kw.update(boundary="extend")
+    return getattr(g, op)(c, "X", **kw)
+
+
+def run_metric_weighted(s):
+    from harness import C10
+    mods = util.xgcm_modules()
+    covers = {}
+
+    def body():
+        w = SymWorld()
+        layout, ns, dims, ds, g = C10.build(w, MW_REG)
+        c = w.array("C", ["t", "y_c", "x_c"], ds, with_coords=True)
+        try:
+            out = mw_call(g, s["op"], c, s["mw"])
+        except (symx.EngineUnsupported, symx.InfeasiblePath, symx.PathAbort):
+            raise
+        except Exception as e:  # noqa
+            import traceback
+            oblige("returns-normally", False, detail=f"{type(e).__name__}: {e} @ {traceback.format_exc(limit=-2)[-300:]}")
+            return
+        oblige("returns-normally", True)
+        covers["normal-return"] = covers.get("normal-return", 0) + 1
+        oblige("name-kept", c.name is not None and out.name == c.name, detail=f"{out.name!r} vs {c.name!r}")
+        oblige("dims", tuple(out.dims) == ("t", "y_c", "x_l"), detail=str(out.dims))
+        got = {k: v for k, v in out.coords.items()}
+        for d in ("t", "y_c", "x_l"):
+            oblige(f"coord:dimension-has-the-dataset-coordinate:{d}", d in got and got[d].tok == ("ds", d), detail=f"{d}: {got[d].tok if d in got else 'absent'}")
+        stale = [k for k, v in got.items() if "x_c" in v.dims or k == "x_c"]
+        oblige("coord:none-on-the-abandoned-dimension", not stale, detail=str(stale))
+        extra = [k for k in got if k not in ("t", "y_c", "x_l")]
+        oblige("coord:no-other-coordinate-with-keep_coords-unset", not extra, detail=str(extra))
+        oblige("frame:input-array-unchanged", not c.log and not ds.log)
+
+    with util.patched(*util.std_patches(mods)):
+        rep = symx.explore(body, s["sid"])
+    obs = []
+    for name, ob in rep.merged().items():
+        rec = {"fn": f"grid.Grid.{s['op']}[metric_weighted]", "clause": name, "status": ob.status, "time": ob.time, "detail": ob.detail}
+        if ob.status == "failed":
+            rec["witness"] = {"part": "metric-weighted", "op": s["op"], "mw": s["mw"], "model": model_values(ob.model)}
+        obs.append(rec)
+    return {"sid": s["sid"], "obligations": obs, "paths": rep.paths, "queries": rep.queries,
+            "solver_time": rep.solver_time, "engine_errors": rep.engine_errors, "covers": covers}
+
+
+def replay_metric_weighted(wit):
+    import numpy as np
+    import xarray as xr
+    import xgcm
+    nx, ny = 4, 3
+    rng = np.random.default_rng(0)
+    ds = xr.Dataset(coords={"x_c": ("x_c", np.arange(nx) + 0.5), "x_l": ("x_l", np.arange(nx) * 1.0), "y_c": ("y_c", np.arange(ny) + 0.5), "y_l": ("y_l", np.arange(ny) * 1.0), "t": ("t", [0, 1])})
+    ds["dx_c"] = ("x_c", rng.random(nx) + 1); ds["dx_l"] = ("x_l", rng.random(nx) + 1)
+    ds["dy_c"] = ("y_c", rng.random(ny) + 1); ds["dy_l"] = ("y_l", rng.random(ny) + 1)
+    ds["a_cc"] = (("y_c", "x_c"), rng.random((ny, nx)) + 1); ds["a_lc"] = (("y_c", "x_l"), rng.random((ny, nx)) + 1)
+    g = xgcm.Grid(ds, coords={"X": {"center": "x_c", "left": "x_l"}, "Y": {"center": "y_c", "left": "y_l"}}, periodic=False,
+                  metrics={("X",): ["dx_c", "dx_l"], ("Y",): ["dy_c", "dy_l"], ("X", "Y"): ["a_cc", "a_lc"]}, autoparse_metadata=False)
+    c = xr.DataArray(rng.random((2, ny, nx)), dims=("t", "y_c", "x_c"), coords={"t": ds.t, "y_c": ds.y_c, "x_c": ds.x_c}, name="C")
+    text = [f"grid.{wit['op']}(C, 'X', to='left', metric_weighted={tuple(wit['mw'])}) on a 2x{ny}x{nx} array named 'C' carrying the dataset's dimension coordinates"]
+    try:
+        out = mw_call(g, wit["op"], c, wit["mw"])
+    except Exception as e:  # noqa
+        import traceback
+        return {"confirmed": not _rih(e), "text": "\n".join(text + [f"REAL CODE RAISED {type(e).__name__}: {e}", traceback.format_exc(limit=-3)])}
+    bad = []
+    if out.name != c.name:
+        bad.append(f"name {out.name!r} != input name {c.name!r}")
+    if tuple(out.dims) != ("t", "y_c", "x_l"):
+        bad.append(f"dims {out.dims}")
+    if set(out.coords) != {"t", "y_c", "x_l"}:
+        bad.append(f"coordinates {sorted(out.coords)} are not the dataset's coordinates of the result's dimensions")
+    else:
+        for d in out.coords:
+            if not np.array_equal(out[d].values, ds[d].values):
+                bad.append(f"coordinate {d!r} does not have the dataset's values")
+    if bad:
+        return {"confirmed": True, "text": "\n".join(text + ["REAL CODE DISAGREES WITH THE SPECIFICATION:"] + bad)}
+    return {"confirmed": False, "text": "\n".join(text + ["real code agrees with the specification on this input"])}
+
+
 def shifts_of(s, layout):
     """[(axis, abandoned dim, new dim)] of the call"""
     sh = s.get("shifts") or [["X", s["arr"]["X"], s["to"]]]
@@ -173,6 +267,8 @@ def expected_coords(s, r):
 def run_structure(s):
     if s.get("part") == "native-lazy":
         return run_native_lazy(s)
+    if s.get("part") == "metric-weighted":
+        return run_metric_weighted(s)
     mods = util.xgcm_modules()
     covers = {}
     canary = s.get("canary")
@@ -266,6 +362,8 @@ def replay(ob):
     wit = ob.get("witness") or {}
     if wit.get("part") == "native-lazy":
         return {"confirmed": True, "text": "real xarray + dask:\n" + wit.get("text", "")}
+    if wit.get("part") == "metric-weighted":
+        return replay_metric_weighted(wit)
     s = dict(wit["structure"])
     s["axes"] = {a: tuple(v) for a, v in s["axes"].items()}
     multi = bool(s.get("shifts"))
